@@ -272,41 +272,43 @@ MayBeErrUn(op, a, p)   == op \notin {"neg", "abs"} /\ NotFitsUn(op, a, p)
 (* "every witness is permitted" checked by TLC on the pools, and the       *)
 (* self-check the judge applies before it proposes a witness.              *)
 (***************************************************************************)
-WitnessOkBin(op, a, b) ==
-  LET w == WBin(op, a, b)
-  IN /\ w.k = "val" => AcceptsValBin(op, a, b, [int |-> w.int, d |-> w.d])
-     /\ w.orEmpty = MayBeEmptyBin(op, a, b)
-     /\ w.orErr = MayBeErrBin(op, a, b)
-     /\ w.k = "none" => w.orEmpty
+(* w is the witness WBin(op, a, b) / WUn(op, a, p) (passed in so that callers that hold it do not recompute it) *)
+WitnessOkBinW(op, a, b, w) ==
+  /\ w.k = "val" => AcceptsValBin(op, a, b, [int |-> w.int, d |-> w.d])
+  /\ w.orEmpty = MayBeEmptyBin(op, a, b)
+  /\ w.orErr = MayBeErrBin(op, a, b)
+  /\ w.k = "none" => w.orEmpty
+WitnessOkBin(op, a, b) == WitnessOkBinW(op, a, b, WBin(op, a, b))
 
-WitnessOkUn(op, a, p) ==
-  LET w == WUn(op, a, p)
-  IN /\ w.k = "val" => AcceptsValUn(op, a, p, [int |-> w.int, d |-> w.d])
-     /\ w.orEmpty = MayBeEmptyUn(op, a, p)
-     /\ w.orErr = MayBeErrUn(op, a, p)
-     /\ w.k = "none" => w.orEmpty
+WitnessOkUnW(op, a, p, w) ==
+  /\ w.k = "val" => AcceptsValUn(op, a, p, [int |-> w.int, d |-> w.d])
+  /\ w.orEmpty = MayBeEmptyUn(op, a, p)
+  /\ w.orErr = MayBeErrUn(op, a, p)
+  /\ w.k = "none" => w.orEmpty
+WitnessOkUn(op, a, p) == WitnessOkUnW(op, a, p, WUn(op, a, p))
 
 (* An Integer-typed witness fits int32 ("results in range"). *)
 InRange(w) == (w.k = "val" /\ w.int) => DFitsInt32(w.d)
 
 (* The relations are functional where the property demands one value: the  *)
-(* neighbours of the witness are refused.  For `/` the neighbours at       *)
-(* distance 2*10^-16*max(1,..) may be accepted, so the check there is at   *)
-(* distance |q| * 10^-3 + 10^-3.                                            *)
+(* neighbours of the witness (one unit away for an integral value, one     *)
+(* unit in the last decimal place otherwise) are refused.  `/` is exempt:  *)
+(* the property permits every decimal within |b| * 10^-16 of the quotient. *)
+(* C08_Laws additionally tries EVERY candidate of a small range.           *)
 Neighbours(w) ==
   IF w.int \/ DIsIntegral(w.d) THEN {DAdd(w.d, DOne), DSub(w.d, DOne)}
   ELSE {DAdd(w.d, DPow10(w.d.e)), DSub(w.d, DPow10(w.d.e))}
 
-FunctionalBin(op, a, b) ==
-  LET w == WBin(op, a, b)
-  IN (w.k = "val" /\ op # "/") =>
+FunctionalBinW(op, a, b, w) ==
+  (w.k = "val" /\ op # "/") =>
        \A n \in Neighbours(w) : ~AcceptsValBin(op, a, b, [int |-> w.int, d |-> n])
-FunctionalUn(op, a, p) ==
-  LET w == WUn(op, a, p)
-      tie == op \in {"round", "roundp"} /\ a.d.neg /\ DEq(DAbs(DSub(w.d, a.d)), DHalfAt(IF op = "round" THEN 0 ELSE p))
+FunctionalBin(op, a, b) == FunctionalBinW(op, a, b, WBin(op, a, b))
+FunctionalUnW(op, a, p, w) ==
+  LET tie == op \in {"round", "roundp"} /\ a.d.neg /\ DEq(DAbs(DSub(w.d, a.d)), DHalfAt(IF op = "round" THEN 0 ELSE p))
   IN (w.k = "val" /\ ~tie) =>
        \A n \in (IF op = "roundp" THEN {DAdd(w.d, DPow10(0 - p)), DSub(w.d, DPow10(0 - p))} ELSE Neighbours(w)) :
           ~AcceptsValUn(op, a, p, [int |-> w.int, d |-> n])
+FunctionalUn(op, a, p) == FunctionalUnW(op, a, p, WUn(op, a, p))
 
 (***************************************************************************)
 (* Algebraic laws over witnesses (checked on the pools by C08_MC).         *)
@@ -316,6 +318,8 @@ SameW(w1, w2) ==
   /\ (w1.k = "val" => w1.int = w2.int /\ DEq(w1.d, w2.d))
 
 LawCommutes(a, b) == SameW(WBin("+", a, b), WBin("+", b, a)) /\ SameW(WBin("*", a, b), WBin("*", b, a))
+(* the same for one operator, given its witness w = WBin(op, a, b) *)
+LawCommutesW(op, a, b, w) == SameW(w, WBin(op, b, a))
 
 (* a - b = -(b - a) whenever both are values *)
 LawAntiCommutes(a, b) ==
@@ -332,6 +336,8 @@ LawDivMod(a, b) ==
 
 (* (a / b) * b is within |b| * 10^-16 of a; x + (-x) = 0; |x| >= 0; -(-x) = x *)
 LawQuotient(a, b) == DIsZero(b.d) \/ QuotRel(a.d, b.d, WQuot(a.d, b.d))
+(* the quotient is odd in the dividend: (-a) / b = -(a / b) *)
+LawQuotientOdd(a, b) == DIsZero(b.d) \/ DEq(WQuot(DNeg(a.d), b.d), DNeg(WQuot(a.d, b.d)))
 LawNeg(a) ==
   LET n == WUn("neg", a, 0)
   IN n.k = "val" => /\ DIsZero(DAdd(n.d, a.d))
